@@ -1,5 +1,5 @@
 #!/usr/bin/env python3
-# harness/denseofflinegen_check.py [--n N] [--seed S] [--gen DenseOfflineGen.v] [--visitor PATH] OUT.v
+# harness/denseofflinegen_check.py [--n N] [--seed S] [--gen DenseOfflineGen.v] [--visitor PATH] [--only REGEX] OUT.v
 # Differential check of the GENERATED definitions (DenseOfflineGen.v) against the Python functions they were generated from:
 # every module-level function of rtamt/semantics/stl/dense_time/offline/ast_visitor.py and every translated visitX method (called on a
 # visitor object whose visit() hands back prepared child results and whose time_unit_transformer() hands back prepared bounds).
@@ -16,6 +16,7 @@ def opt(name, default):
     return default
 N, SEED, GEN = int(opt('--n', '140')), int(opt('--seed', '20260926')), opt('--gen', 'coq/theories/DenseOfflineGen.v')
 MODULE = opt('--module', None)        # logical name of the compiled --gen file when it is not RV.DenseOfflineGen
+ONLY = opt('--only', None)               # only the generated functions whose Python name matches the regular expression
 VISITOR = opt('--visitor', None)          # a (scratch, modified) copy of ast_visitor.py instead of the installed module
 OUT = argv[0]
 rnd = random.Random(SEED)
@@ -83,6 +84,7 @@ def bounds():
 cases, none_count, outside, dropped, per = [], 0, 0, 0, {}
 for name, tys in defs:
     X = name[4:]
+    if ONLY and not re.search(ONLY, X): continue
     if not tys: continue                        # visitRise ... : None, by reflexivity in the Coq proof
     for _ in range(N):
         sigs = [signal(X, k) for k in range(tys.count('dsig'))]
